@@ -18,7 +18,7 @@ import numpy as np
 from .. import common as C
 
 PROP = "C18"
-GEN_REGIONS: List[str] = ["Noise"]
+GEN_REGIONS: List[str] = ["Noise", "FftNoise"]
 THEOREMS = {
     "SpecKitV.Lemmas.Bilinear": ["bilinear_section", "bilinear_dc", "bilinear_nyquist"],
     # FFT synthesiser index logic, band mask, corner placement (file present and building at hand-over; names are the ones it contains)
@@ -28,6 +28,17 @@ THEOREMS = {
                                  "fftfreqAbs_eq", "sectionCorners_ratio", "sectionCorners_step"],
     # the machine-translated coefficient design (Gen/Noise.lean) IS the hand model the bilinear theorems are about
     "SpecKitV.Props.NoiseGen": ["gen_filter_coeffs_eq_model"],
+    # region FftNoise (Gen/FftNoise.lean, translated each run from fftnoise / band_limited_noise / alpha_noise.__init__ / white_noise.__init__):
+    # translated = hand model for all accepted inputs, the translated validation = the documented preconditions, and the theorems above
+    # restated for the translated definitions
+    "SpecKitV.Props.FftNoiseGen": [
+        "gen_fftnoise_spectrum_eq_model", "gen_fftnoise_rejects_iff", "gen_fftnoise_hermitian", "gen_fftnoise_dc_real", "gen_fftnoise_nyquist_real",
+        "gen_fftnoise_magnitude_pos", "gen_fftnoise_magnitude_neg", "gen_fftnoise_dc_magnitude", "gen_fftnoise_nyquist_magnitude",
+        "gen_fftnoise_zero_bins", "gen_fftnoise_series_real", "gen_fftnoise_eq", "gen_fftnoise_series", "FftNoiseGen.npifft_toC",
+        "gen_band_spectrum_eq_model", "gen_band_rejects_iff", "gen_band_symm", "gen_band_iff", "gen_band_limited_noise_eq",
+        "gen_band_limited_zero_outside", "gen_band_limited_unit_inside",
+        "gen_alpha_init_eq_model", "gen_alpha_rejects_iff", "gen_alpha_corners", "gen_alpha_corners_ratio", "gen_alpha_corners_step",
+        "gen_alpha_section_response", "gen_alpha_effective", "gen_alpha_section_dc_nyquist", "gen_white_init_eq", "gen_white_variance"],
 }
 CONTRACTS = [
     "np.fft.ifft / np.fft.fft are the inverse / forward DFT (unnormalised forward, 1/N inverse) up to rounding c*u*log2(N)*||F||_2",
@@ -35,6 +46,16 @@ CONTRACTS = [
     "Generator.normal(0, s, n) draws n independent N(0, s^2) samples; Generator.random(n) draws n uniforms in [0,1) "
     "(the same seeded generator re-created by the harness yields the same phases)",
     "_numba_lfilter_cascade / scipy.signal.lfilter realise y = a0 x + z, z' = a1 x - b1c y per section (tied by an impulse-response run of get_series)",
+    # contracts of the translated region FftNoise: Lean DEFINITIONS in lean/SpecKitV/Np/FftNoise.lean, each executed against the NumPy routine it stands for
+    "NpFN.pySlice / NpFN.sliceGet / NpFN.sliceSet = NumPy basic slicing a[start:stop:step] (read / assign a vector of the slice's length), normalised exactly as "
+    "CPython's PySlice_AdjustIndices (negative bounds count from the end, clipping, negative step); a length mismatch (NumPy raises) yields the empty vector",
+    "NpFN.map / NpFN.zipWith = elementwise NumPy arithmetic, comparison and ufunc evaluation of vectors of equal length, one temporary per operation "
+    "(np.cos, np.sin, np.abs, np.conj, np.real, np.power, np.log10, np.ceil, +, -, *, /, >=, <=, &)",
+    "NpFN.maskSet = a[mask] = scalar;  NpFN.full = np.zeros(n, dtype) / np.ones_like;  NpFN.arange = np.arange(n);  NpFN.columns2 = np.vstack([c0, c1]).T",
+    "NpFN.rngRandom = Generator.random(k): the next k draws of the generator's stream of uniforms",
+    "NpFN.fftfreq = np.fft.fftfreq(n, d): val = 1/(n d); results[:N] = arange(0, N), results[N:] = arange(-(n//2), 0) with N = (n-1)//2 + 1; results * val  (bit-exact in the run)",
+    "NpFN.ifft = np.fft.ifft: x[m] = (1/N) sum_k F[k] exp(+2 pi i k m / N)  (proved to be Mathlib's sum: FftNoiseGen.npifft_toC)",
+    "Gen._calc_filter_coeffs (Gen/Noise.lean) applied elementwise = alpha_noise._calc_filter_coeffs on the corner vectors",
 ]
 ASSUMPTIONS = [
     "PARTIAL: 'two-sided density equals f^-alpha to about 1 dB between the corners' is not a theorem; it is probed on the real "
@@ -55,7 +76,10 @@ RULE = ("alpha: (fs, fmin, fmax, alpha) with alpha in [0.01,2] (incl. both ends,
         "get_series / get_sample calls in between; EVERY member is checked at the end (all alpha predicates on the member itself + its design quantities against the same "
         "constructor call made alone in a fresh process); distinct by (family, members, #rates, #exponents, #bands, used flag); non-trivial = >= 2 coloured members. "
         "fftnoise: N in 2..65 and powers of two to 1024 (4096 thorough), complex spectra with non-real DC/Nyquist, non-Hermitian mirror side, zero bins, real dtype, "
-        "rng seeded or None; distinct by (N, kind); non-trivial = N >= 3 and a non-zero spectrum. band_limited_noise: odd/even N, bands with edges on grid "
+        "rng seeded or None; distinct by (N, kind); non-trivial = N >= 3 and a non-zero spectrum. generated region FftNoise (translated fftnoise / "
+        "band_limited_noise / alpha_noise.__init__ / white_noise.__init__ at Float vs the real functions): the same generators from a spawned child stream, N in 2..65 and "
+        "128..1024 with every input kind, N < 2 and every validation failure, the 1e-12 Nyquist allowance from both sides; NumPy contracts (slices: all (n <= 7, start, stop, "
+        "step in {1,-1,2,-3}); fftfreq bit-exact; ifft) on their own. band_limited_noise: odd/even N, bands with edges on grid "
         "frequencies (exact binary grids), min_freq = 0, max_freq = Nyquist, single-bin and empty bands; distinct by (N, edge class); non-trivial = at least one bin "
         "inside and one outside the band. white_noise: (fs, psd, seed), distinct by (fs, psd).")
 
@@ -313,6 +337,13 @@ BAND_CORPUS = [
     {"N": 3, "fs": 1.0, "lo": 0.2, "hi": 0.4, "exact": False, "edge_mode": 6, "seed": 7, "rng_none": False},
     {"N": 8, "fs": 8.0, "lo": 4.0, "hi": 4.0, "exact": True, "edge_mode": 4, "seed": 8, "rng_none": False},             # Nyquist only
     {"N": 8, "fs": 8.0, "lo": 0.0, "hi": 0.0, "exact": True, "edge_mode": 4, "seed": 9, "rng_none": False},             # DC only
+    # long records: band edges at HIGH bin indices, where a grid-independent closeness tolerance (np.isclose: 1e-5 relative) spans several bins
+    # (seeded defect C18d) — edges on grid frequencies, between them, and one bin below Nyquist
+    {"N": 400000, "fs": 1000.0, "lo": 100.0, "hi": 300.0, "exact": False, "edge_mode": 0, "seed": 10, "rng_none": False},   # bins 40000 and 120000
+    {"N": 2 ** 20, "fs": 1.0, "lo": 0.05, "hi": 0.3, "exact": False, "edge_mode": 6, "seed": 11, "rng_none": False},
+    {"N": 600001, "fs": 48000.0, "lo": 1234.5, "hi": 20000.0, "exact": False, "edge_mode": 6, "seed": 12, "rng_none": False},
+    {"N": 2 ** 19, "fs": 2.0 ** 19, "lo": 150000.0, "hi": 262143.0, "exact": True, "edge_mode": 0, "seed": 13, "rng_none": False},   # df = 1 exactly
+    {"N": 300000, "fs": 3.0e-3, "lo": 1.0e-3, "hi": 1.2e-3, "exact": False, "edge_mode": 0, "seed": 14, "rng_none": False},           # df = 1e-8 Hz
 ]
 
 
@@ -353,7 +384,13 @@ def check_alpha(P: C.Part, c: Dict[str, Any], nfreq: int = 192, impulse_max: int
     rep = alpha_dump(c) if rep is None else rep
     fs, fmin_u, fmax_u, alpha = c["fs"], c["fmin"], c["fmax"], c["alpha"]
     if g is None:
-        g = make_gen(c)
+        try:
+            g = make_gen(c)
+        except Exception as ex:
+            P.cases += 1
+            _viol(P, f"{pre}alpha_noise(fs={fs}, fmin={fmin_u}, fmax={fmax_u}, alpha={alpha}) raised {ex!r} for valid parameters (0.01 <= alpha <= 2, fs >= 2 fmax)",
+                  {"sub": "alpha-construct", "raises": True}, rep)
+            return
     a0, a1, b1c = sections(g)
     n = len(a0)
     P.cases += 1
@@ -1267,7 +1304,292 @@ def correspondence(ctx) -> C.Part:
                 P.unstable += int(diff.sum())
     finally:
         noise.fftnoise = orig
+
+    # ---- (e) the TRANSLATED region FftNoise executed at Float vs the functions it was translated from.  Own child generator
+    # (Generator.spawn does not advance ctx.rng: the streams of the runs above and of the oracle are unchanged).
+    gen_correspondence(ctx, P, rng.spawn(1)[0] if hasattr(rng, "spawn") else np.random.default_rng(int(ctx.seed) + 180018))
     return P
+
+
+def _cx_parse(toks: List[str]) -> Tuple[np.ndarray, List[str]]:
+    n = int(toks[0])
+    v = [C.h2f(t) for t in toks[1:1 + 2 * n]]
+    return np.array(v[0::2], dtype=float) + 1j * np.array(v[1::2], dtype=float), toks[1 + 2 * n:]
+
+
+def _arr_parse(toks: List[str]) -> np.ndarray:
+    n = int(toks[0])
+    return np.array([C.h2f(t) for t in toks[1:1 + n]], dtype=float)
+
+
+def gen_correspondence(ctx, P: C.Part, rng: np.random.Generator) -> None:
+    """generated Lean (Gen/FftNoise.lean, `Float`) vs the real Python it was generated from, plus the NumPy contracts on their own.
+    Both sides follow the CURRENT source, so a disagreement here means the translator (or a contract) is wrong, not the library."""
+    noise = _noise()
+    drv = ctx.driver
+    t_start = ctx.time_left()
+
+    def ask(line: str) -> List[str]:
+        r = drv.ask(line)
+        if r.startswith("ERR"):
+            raise RuntimeError(f"driver error {r} on {line[:120]}")
+        return r.split()
+
+    # -- contracts on their own: slicing, fftfreq, ifft
+    bad_sl = None
+    for n in range(0, 8):
+        for a in [None] + list(range(-9, 10, 1)):
+            for b in [None, -9, -8, -4, -3, -2, -1, 0, 1, 2, 3, 4, 7, 8, 9]:
+                for st in (1, -1, 2, -3):
+                    s0, e0, st0 = slice(a, b, st).indices(n)
+                    ln = len(range(s0, e0, st0))
+                    r = ask(f"npslice {n} {'none' if a is None else a} {'none' if b is None else b} {st}")
+                    P.cases += 1
+                    if not (int(r[1]) == st and int(r[2]) == ln and (ln == 0 or int(r[0]) == s0)):
+                        bad_sl = {"n": n, "start": a, "stop": b, "step": st, "python": [s0, st0, ln], "contract": [int(t) for t in r]}
+    P.hit("np-contract:slice")
+    if bad_sl:
+        P.disagreements.append({"op": "npslice", "what": "NpFN.pySlice differs from Python's slice.indices", **bad_sl})
+    for n in [1, 2, 3, 4, 5, 8, 9, 16, 17, 64, 65, 1000, 1024, int(rng.integers(6, 3000)), int(rng.integers(6, 3000))]:
+        for d in (1.0, 1.0 / 1000.0, 1.0 / 44100.0, float(10.0 ** rng.uniform(-5, 2))):
+            got = _arr_parse(ask(f"npfftfreq {n} {C.f2h(d)}"))
+            exp = np.fft.fftfreq(n, d=d)
+            P.cases += 1
+            P.hit("np-contract:fftfreq")
+            if got.shape != exp.shape or not np.array_equal(got, exp):
+                P.disagreements.append({"op": "npfftfreq", "what": "NpFN.fftfreq differs from np.fft.fftfreq (bit-exact comparison)", "n": n, "d": d})
+    for n in (1, 2, 3, 4, 7, 8, 16, 31):
+        Fz = rng.standard_normal(n) + 1j * rng.standard_normal(n)
+        got, _ = _cx_parse(ask(f"npifft {cx_arr(Fz)}"))
+        P.cases += 1
+        P.hit("np-contract:ifft")
+        if len(got) != n or not np.all(np.abs(got - np.fft.ifft(Fz)) <= 1e-13 * np.linalg.norm(Fz)):
+            P.disagreements.append({"op": "npifft", "what": "NpFN.ifft differs from np.fft.ifft", "n": n, "F": cx_dump(Fz)})
+
+    # -- fftnoise: generated spectrum-before-ifft (fed the ACTUAL uniform draws of a same-seed generator) vs the array the real function hands to
+    #    np.fft.ifft (captured) and vs np.fft.fft of the returned series
+    sizes = FFT_SIZES_SMALL + [128, 256, 512, 1024]
+    real_ifft = np.fft.ifft
+    cap: Dict[str, Any] = {}
+
+    def spy_ifft(a, *args, **kw):
+        cap["F"] = np.array(a, dtype=complex, copy=True)
+        return real_ifft(a, *args, **kw)
+    for j, N in enumerate(sizes * ctx.scale(3, 7) + [0, 1]):
+        if ctx.time_left() < 45:
+            P.notes.append("generated fftnoise correspondence: time budget reached")
+            break
+        c = fft_case(rng, N, kind=j % 7) if N >= 2 else {"N": N, "kind": 0, "dtype": "complex", "f": (rng.standard_normal(N) + 1j * rng.standard_normal(N)),
+                                                         "seed": int(rng.integers(0, 2 ** 31)), "rng_none": False}
+        f_in = np.array(c["f"].real if c["dtype"] == "float" else c["f"], dtype=(float if c["dtype"] == "float" else complex))
+        Np_ = (N - 1) // 2
+        u = np.random.default_rng(c["seed"]).random(Np_) if Np_ > 0 else np.zeros(0)        # what rng.random(Np) returns for this seed
+        cap.clear()
+        raised = None
+        np.fft.ifft = spy_ifft
+        try:
+            x = noise.fftnoise(f_in, rng=np.random.default_rng(c["seed"]))
+        except ValueError as ex:
+            raised = ex
+        finally:
+            np.fft.ifft = real_ifft
+        r = ask(f"genfftspec {cx_arr(f_in)} {C.arr(u)}")
+        rej = r[0] == "1"
+        Fg, _ = _cx_parse(r[1:])
+        P.cases += 1
+        P.hit("gen-fftspec:" + ("rejected" if N < 2 else "odd" if N % 2 else "even"))
+        if N >= 3:
+            P.nontrivial.add(("gen-fftspec", N, c["kind"]))
+        if raised is not None and not rej and len(Fg) == 0 and N >= 2:
+            P.hit("gen-fftspec:shape-error-on-both-sides")      # NumPy refused the shapes of a slice store / elementwise operation; the contracts' marker is the empty vector
+            continue
+        if (raised is not None) != rej:
+            P.disagreements.append({"op": "gen-fftspec", "what": "validation: generated fftnoise_rejects vs the real function raising ValueError",
+                                    "generated_rejects": rej, "real_raised": repr(raised), "case": fft_dump(c)})
+            continue
+        if raised is not None:
+            continue
+        scale = float(np.max(np.abs(f_in))) if N else 0.0
+        if len(Fg) != N:
+            P.disagreements.append({"op": "gen-fftspec", "what": f"length of the generated spectrum {len(Fg)} != {N}", "case": fft_dump(c)})
+            continue
+        if "F" in cap and cap["F"].shape == (N,):
+            d = np.abs(Fg - cap["F"])
+            if not np.all(d <= 64 * U * scale):
+                k = int(np.argmax(d))
+                P.disagreements.append({"op": "gen-fftspec", "what": "generated spectrum vs the array the real fftnoise hands to np.fft.ifft", "bin": k,
+                                        "generated": [Fg[k].real, Fg[k].imag], "impl": [cap["F"][k].real, cap["F"][k].imag], "tol": 64 * U * scale, "case": fft_dump(c)})
+                continue
+            P.hit("gen-fftspec:vs-captured-ifft-argument")
+        else:
+            P.notes.append("fftnoise no longer calls np.fft.ifft on a length-N array: generated spectrum compared with fft(x) only")
+        # the series is `ifft(F).real`: its DFT is the Hermitian part (F[k] + conj F[-k]) / 2 of the spectrum, which IS the spectrum when the source
+        # makes it Hermitian (proved for the translated code: gen_fftnoise_series); taking the Hermitian part keeps this comparison a check of the
+        # TRANSLATION (both sides follow the current source) rather than of the property
+        X = np.fft.fft(np.asarray(x))
+        Fh = 0.5 * (Fg + np.conj(Fg[(-np.arange(N)) % N]))
+        tol = fft_tol(N, float(np.linalg.norm(Fg)))
+        if np.shape(x) != (N,) or not np.all(np.abs(X - Fh) <= tol):
+            k = int(np.argmax(np.abs(X - Fh))) if np.shape(x) == (N,) else -1
+            P.disagreements.append({"op": "gen-fftspec", "what": "Hermitian part of the generated spectrum vs np.fft.fft(fftnoise(f, rng))", "bin": k, "tol": tol, "case": fft_dump(c)})
+            continue
+        if np.all(np.abs(Fh - Fg) <= 64 * U * scale):
+            P.hit("gen-fftspec:spectrum-is-hermitian")
+        if N <= 16:                                   # the whole translated function (contract NpFN.ifft, O(N^2)) on small sizes
+            xs = _arr_parse(ask(f"genfftnoise {cx_arr(f_in)} {C.arr(u)}"))
+            P.cases += 1
+            P.hit("gen-fftnoise:series")
+            if xs.shape != (N,) or not np.all(np.abs(xs - x) <= 1e-12 * max(float(np.linalg.norm(f_in)), 1e-300)):
+                P.disagreements.append({"op": "gen-fftnoise", "what": "generated series (NpFN.ifft contract) vs the real fftnoise", "case": fft_dump(c)})
+
+    # -- band_limited_noise: generated mask spectrum vs the array the real function hands to fftnoise; validation
+    captured: Dict[str, Any] = {}
+    orig = noise.fftnoise
+
+    def spy(F, rng=None):
+        captured["F"] = np.array(F, copy=True)
+        return orig(F, rng=rng)
+    bcases = [dict(c) for c in BAND_CORPUS] + [band_case(rng) for _ in range(ctx.scale(300, 2000))]
+    # invalid requests (each validation, and the 1e-12 allowance above Nyquist from both sides)
+    for bad in ({"N": 1, "fs": 8.0, "lo": 0.0, "hi": 1.0}, {"N": 0, "fs": 8.0, "lo": 0.0, "hi": 1.0}, {"N": 8, "fs": 0.0, "lo": 0.0, "hi": 0.0},
+                {"N": 8, "fs": -1.0, "lo": 0.0, "hi": 0.0}, {"N": 8, "fs": 8.0, "lo": -1e-9, "hi": 1.0}, {"N": 8, "fs": 8.0, "lo": 2.0, "hi": 1.0},
+                {"N": 8, "fs": 8.0, "lo": 1.0, "hi": 4.0 + 5e-13}, {"N": 8, "fs": 8.0, "lo": 1.0, "hi": 4.0 + 2e-12}, {"N": 8, "fs": 8.0, "lo": 1.0, "hi": 4.001}):
+        bcases.append({**bad, "exact": True, "edge_mode": 10, "seed": 1, "rng_none": False})
+    noise.fftnoise = spy
+    try:
+        for c in bcases:
+            if ctx.time_left() < 40:
+                P.notes.append("generated band correspondence: time budget reached")
+                break
+            captured.clear()
+            raised = None
+            x = None
+            try:
+                x = noise.band_limited_noise(c["lo"], c["hi"], samples=c["N"], samplerate=c["fs"], rng=np.random.default_rng(c["seed"]))
+            except ValueError as ex:
+                raised = ex
+            r = ask(f"genband {C.f2h(c['lo'])} {C.f2h(c['hi'])} {c['N']} {C.f2h(c['fs'])}")
+            rej = r[0] == "1"
+            Fg, _ = _cx_parse(r[1:])
+            P.cases += 1
+            P.hit("gen-band:" + ("rejected" if rej else f"edge_mode{c['edge_mode']}"))
+            if raised is not None and "F" in captured and not rej:
+                P.hit("gen-band:fftnoise-raised")            # the callee refused the spectrum (covered by the fftnoise comparison above)
+                continue
+            if (raised is not None and "F" not in captured) != rej:
+                P.disagreements.append({"op": "gen-band", "what": "validation: generated band_limited_noise_rejects vs the real function raising ValueError",
+                                        "generated_rejects": rej, "real_raised": repr(raised), "case": band_dump(c)})
+                continue
+            if rej:
+                continue
+            if "F" not in captured:
+                P.notes.append("band_limited_noise no longer calls noise.fftnoise through the module global: generated mask not compared")
+                break
+            F = np.asarray(captured["F"])
+            if F.shape != (c["N"],) or len(Fg) != c["N"]:
+                P.disagreements.append({"op": "gen-band", "what": f"length: generated {len(Fg)}, real {F.shape}", "case": band_dump(c)})
+                continue
+            diff = Fg != F
+            if diff.any():
+                near = np.zeros(c["N"], dtype=bool) if c["exact"] else near_edges(bin_freqs(c["N"], c["fs"]), c["lo"], c["hi"])
+                if (diff & ~near).any():
+                    k = int(np.argmax(diff & ~near))
+                    P.disagreements.append({"op": "gen-band", "what": "generated mask spectrum vs the array the real band_limited_noise hands to fftnoise", "bin": k,
+                                            "generated": [Fg[k].real, Fg[k].imag], "impl": [F[k].real, F[k].imag], "case": band_dump(c)})
+                    continue
+                P.unstable += int(diff.sum())
+            if (F != 0).any() and not (F != 0).all():
+                P.nontrivial.add(("gen-band", c["N"], c["edge_mode"]))
+            if c["N"] <= 12 and x is not None:        # the whole translated function on small sizes
+                Np_ = (c["N"] - 1) // 2
+                u = np.random.default_rng(c["seed"]).random(Np_) if Np_ > 0 else np.zeros(0)
+                xs = _arr_parse(ask(f"genbandnoise {C.f2h(c['lo'])} {C.f2h(c['hi'])} {c['N']} {C.f2h(c['fs'])} {C.arr(u)}"))
+                P.cases += 1
+                P.hit("gen-band:series")
+                if xs.shape != (c["N"],) or not np.all(np.abs(xs - x) <= 1e-12 * max(1.0, float(np.linalg.norm(F)))):
+                    P.disagreements.append({"op": "gen-bandnoise", "what": "generated series vs the real band_limited_noise", "case": band_dump(c)})
+    finally:
+        noise.fftnoise = orig
+
+    # -- alpha_noise.__init__ design arithmetic and white_noise.__init__
+    acases = [dict(c) for c in ALPHA_CORPUS] + [alpha_case(rng) for _ in range(ctx.scale(150, 1000))]
+    acases += [{"fs": 100.0, "fmin": 0.1, "fmax": 10.0, "alpha": 0.0099, "pink": False}, {"fs": 100.0, "fmin": 0.1, "fmax": 10.0, "alpha": 2.0000001, "pink": False},
+               {"fs": 19.999, "fmin": 0.1, "fmax": 10.0, "alpha": 1.0, "pink": False}, {"fs": 20.0, "fmin": 0.1, "fmax": 10.0, "alpha": 1.0, "pink": False}]
+    for c in acases:
+        if ctx.time_left() < 35:
+            P.notes.append("generated alpha-design correspondence: time budget reached")
+            break
+        fs, fmin_u, fmax_u, alpha = c["fs"], c["fmin"], c["fmax"], c["alpha"]
+        case = {"kind": "alpha", "fs": fs, "fmin": fmin_u, "fmax": fmax_u, "alpha": alpha}
+        raised = None
+        other = None
+        g = None
+        try:
+            g = (noise.pink_noise(fs, fmin_u, fmax_u, init_filter=False, seed=0) if c.get("pink") else noise.alpha_noise(fs, fmin_u, fmax_u, alpha, init_filter=False, seed=0))
+        except ValueError as ex:
+            raised = ex
+        except Exception as ex:                   # e.g. IndexError at filter_f_min_vals[0] when the section count is <= 0
+            other = ex
+        r = drv.ask(f"genalpha {C.f2h(fs)} {C.f2h(fmin_u)} {C.f2h(fmax_u)} {C.f2h(1.0 if c.get('pink') else alpha)}")
+        if r.startswith("ERR"):
+            raise RuntimeError(f"driver error {r}")
+        parts = [p.split() for p in r.split("|")]
+        rej, m_num = parts[0][0] == "1", int(parts[0][1])
+        P.cases += 1
+        P.hit("gen-alpha:" + ("rejected" if rej else "design"))
+        if other is not None:
+            # not input validation: the translated arithmetic has no notion of IndexError; the equality theorem excludes exactly this case (0 < numSections)
+            if rej or m_num > 0:
+                P.disagreements.append({"op": "gen-alpha", "what": f"the real constructor raised {other!r}; generated: rejects={rej}, _num_spectra={m_num}", "case": case})
+            else:
+                P.hit("gen-alpha:no-sections-real-raises")
+            continue
+        if (raised is not None) != rej:
+            P.disagreements.append({"op": "gen-alpha", "what": "validation: generated alpha_noise_init_rejects vs the real constructor raising ValueError",
+                                    "generated_rejects": rej, "real_raised": repr(raised), "case": case})
+            continue
+        if rej:
+            continue
+        n_real = int(g._num_spectra)
+        if m_num != n_real:
+            v = 4.5 * (math.log10(2 * math.pi * fmax_u) - math.log10(2 * math.pi * fmin_u))
+            if abs(v - round(v)) <= 1e-9 * max(1.0, abs(v)):
+                P.unstable += 1
+                continue
+            P.disagreements.append({"op": "gen-alpha", "what": "_num_spectra", "impl": n_real, "generated": m_num, "case": case})
+            continue
+        m_fs, m_al, m_fmin, m_fmax, m_sc = (C.h2f(t) for t in parts[1])
+        A = np.array([C.h2f(t) for t in parts[2][2:]]).reshape(int(parts[2][0]), int(parts[2][1]))
+        B = np.array([C.h2f(t) for t in parts[3][2:]]).reshape(int(parts[3][0]), int(parts[3][1]))
+        ctol = 1e-12 + 64 * U * (abs(math.log10(2 * np.pi * fmin_u)) + abs(math.log10(2 * np.pi * fmax_u)) + 1.0) * math.log(10.0)
+        ra, rb = np.asarray(g._a_coeffs, dtype=float), np.asarray(g._b_coeffs, dtype=float)
+        what = None
+        if not (m_fs == float(g.fs) and m_al == float(g.alpha)):
+            what = "fs / alpha attributes"
+        elif not (_rel_close(m_fmin, float(g.fmin), ctol) and _rel_close(m_fmax, float(g.fmax), ctol)):
+            what = "effective corners fmin / fmax"
+        elif not _rel_close(m_sc, float(g._scaling), (1.0 + abs(alpha)) * ctol):
+            what = "_scaling"
+        elif A.shape != ra.shape or B.shape != rb.shape:
+            what = f"coefficient matrix shapes {A.shape}, {B.shape} vs {ra.shape}, {rb.shape}"
+        else:
+            tolc = (16 * U + 2 * ctol) * np.maximum(1.0, np.abs(ra[:, :1]))
+            if not (np.all(np.abs(A - ra) <= tolc) and np.all(np.abs(B - rb) <= tolc)):
+                what = "_a_coeffs / _b_coeffs"
+        if n_real >= 2:
+            P.nontrivial.add(("gen-alpha", n_real, round(alpha, 1)))
+        if what:
+            P.disagreements.append({"op": "gen-alpha", "what": what, "generated": {"fmin": m_fmin, "fmax": m_fmax, "scaling": m_sc, "a": A.tolist(), "b": B.tolist()},
+                                    "impl": {"fmin": float(g.fmin), "fmax": float(g.fmax), "scaling": float(g._scaling), "a": ra.tolist(), "b": rb.tolist()}, "case": case})
+    for _ in range(12):
+        wc = white_case(rng, 1)
+        w = noise.white_noise(wc["fs"], wc["psd"], seed=0)
+        m_fs, m_rms = (C.h2f(t) for t in ask(f"genwhite {C.f2h(wc['fs'])} {C.f2h(wc['psd'])}"))
+        P.cases += 1
+        P.hit("gen-white")
+        if not (m_fs == float(w.fs) and abs(m_rms - float(w.rms)) <= 2 * U * abs(float(w.rms))):
+            P.disagreements.append({"op": "gen-white", "what": "fs / rms", "generated": [m_fs, m_rms], "impl": [float(w.fs), float(w.rms)], "case": {"kind": "white", **wc}})
+    P.notes.append(f"generated-region (FftNoise) differential took {t_start - ctx.time_left():.1f} s")
 
 
 # ------------------------------------------------------------------------------------------------ replay
